@@ -432,8 +432,6 @@ def reference_value(toks):
     if c01.triggers(F.fix_parens(F.strip_parens(ast))) or c01.triggers(ast):
         return False, 'c01-open-finding-trigger'
     try:
-        if c01.text_of_computed_fraction(ast, lambda ref: DATA_VALUES.get(ref, F.BLANK)):
-            return False, 'text-of-computed-fraction'
         v = F.Evaluator(lambda ref: DATA_VALUES.get(ref, F.BLANK)).value(ast)
     except F.OutOfDomain as e:
         return False, 'out-of-domain'
